@@ -999,7 +999,8 @@ impl<'a, 'src: 'a> Compiler<'a, 'src> {
       .offset_line(offset as usize)
       .expect("Line offset out of bounds");
 
-    self.write_instruction(op_code, line as u16 + 1);
+    // line numbers are stored as u16: lines past 65535 are reported as 65535
+    self.write_instruction(op_code, (line + 1).min(u16::MAX as usize) as u16);
   }
 
   /// write instruction to the current function
